@@ -275,6 +275,20 @@ class Parser:
             elif t in ("++", "--"):
                 self.eat()
                 n = ("post", t, n)
+            elif t == ".":
+                self.eat()
+                f = self.eat()
+                if n[0] != "var" or self.peek() != "(":
+                    raise Untranslatable("`.` that is not a method call on a variable")
+                self.eat()
+                args = []
+                if self.peek() != ")":
+                    args.append(self.assign())
+                    while self.peek() == ",":
+                        self.eat()
+                        args.append(self.assign())
+                self.eat(")")
+                n = ("mcall", n[1], f, args)
             else:
                 return n
 
@@ -1004,10 +1018,12 @@ class BodyGen:
         self.fname, self.items, self.obj, self.in_stream, self.out_ref = fname, items, obj, in_stream, out_ref
         self.S = f"{fname}_S"
         self.counters = for_counters(items, set())
-        self.scalars, self.arrays, self.out_ptr = {}, {}, None
+        self.scalars, self.arrays, self.out_ptr, self.local_obj, self.out_direct = {}, {}, None, False, False
         for d in flat_decls(items, []):
             _, ty, isptr, name, n, init = d
-            if isptr:
+            if ty == "Sha" and not isptr and n is None and init is None and self.obj is None:
+                self.obj, self.local_obj = name, True     # `Sha256 sha256;`: constructed here (constructor = reset on fresh storage)
+            elif isptr:
                 if ty == "Sha" and init == ("var", "this"):
                     self.obj = name
                 elif ty == "UInt8" and out_ref and init == ("var", out_ref):
@@ -1232,6 +1248,19 @@ class BodyGen:
                 self.assign(e, be)
             elif e[0] == "call":
                 self.call(e, be)
+            elif e[0] == "mcall" and self.local_obj and e[1] == self.obj:
+                self.flush(be)
+                new = be.fresh("st")
+                if e[2] == "update" and self.in_stream and e[3] == [("var", self.in_stream[0]), ("var", self.in_stream[1])]:
+                    be.lines.append(f"let {new} : {self.S} := {{ {be.st} with p := update {be.st}.p {self.in_stream[0]} }}")
+                elif e[2] == "finalize" and self.out_ref and e[3] == [("var", self.out_ref)]:
+                    self.out_direct = True
+                    r = be.fresh("r")
+                    be.lines.append(f"let {r} := finalize {be.st}.p")
+                    be.lines.append(f"let {new} : {self.S} := {{ {be.st} with p := {r}.2, out := {be.st}.out ++ {r}.1 }}")
+                else:
+                    raise Untranslatable(f"{self.fname}: method call {e[1]}.{e[2]}(…) is not translated")
+                be.st = new
             elif e[0] == "post" and e[1] == "--" and self.in_stream and e[2] == ("var", self.in_stream[1]) and be.head:
                 be.size_dec += 1
             elif e[0] == "post" and e[1] == "++":
@@ -1336,11 +1365,12 @@ class BodyGen:
         for x in self.items:
             self.stmt(x, be)
         self.flush(be)
+        has_out = bool(self.out_ptr) or self.out_direct
         fields = [f"  p : {SHA}\n"] + [f"  {a} : List {ty}\n" for a, (ty, n) in self.arrays.items()] + \
-                 [f"  {v} : {ty}\n" for v, ty in self.scalars.items()] + (["  out : List UInt8\n"] if self.out_ptr else [])
-        init = ["p := p"] + [f"{a} := List.replicate {n} 0" for a, (ty, n) in self.arrays.items()] + \
-               [f"{v} := 0" for v in self.scalars] + (["out := []"] if self.out_ptr else [])
-        head = (f"/-- the object, the local variables" + (" and the bytes written through the output pointer" if self.out_ptr else "") +
+                 [f"  {v} : {ty}\n" for v, ty in self.scalars.items()] + (["  out : List UInt8\n"] if has_out else [])
+        init = ["p := Nstd.Sha.init" if self.local_obj else "p := p"] + [f"{a} := List.replicate {n} 0" for a, (ty, n) in self.arrays.items()] + \
+               [f"{v} := 0" for v in self.scalars] + (["out := []"] if has_out else [])
+        head = (f"/-- the object, the local variables" + (" and the bytes written through the output pointer/reference" if (self.out_ptr or self.out_direct) else "") +
                 f" of `{self.fname}` -/\nstructure {self.S} where\n" + "".join(fields) + "\n")
         main = (doc + f"def {self.fname} {params} :=\n  let st0 : {self.S} := {{ {', '.join(init)} }}\n" +
                 "".join(f"  {l}\n" for l in be.lines) + f"  {result.format(st=be.st)}\n\n")
@@ -1350,12 +1380,14 @@ class BodyGen:
 FALLBACK = {"reset": (f"(p : {SHA}) : {SHA}", "Nstd.Sha.reset p"),
             "WriteByteBlock": (f"(p : {SHA}) : {SHA}", "Nstd.Sha.writeByteBlock p"),
             "update": (f"(p : {SHA}) (data : List UInt8) : {SHA}", "Nstd.Sha.update p data"),
-            "finalize": (f"(p : {SHA}) : List UInt8 × {SHA}", "Nstd.Sha.finalize p")}
+            "finalize": (f"(p : {SHA}) : List UInt8 × {SHA}", "Nstd.Sha.finalize p"),
+            "hash": ("(data : List UInt8) : List UInt8", "Nstd.Sha.hash data")}
 PROOFS = VERIF / "lean" / "Nstd" / "Sha" / "body_proofs"
 FALLBACK_PROOF = {"reset": "theorem gen_reset_eq (p : Sha) (hs : p.state.length = 8) : Sha256Body.reset p = reset p := rfl\n",
                   "WriteByteBlock": "theorem WriteByteBlock_eq (p : Sha) : Sha256Body.WriteByteBlock p = writeByteBlock p := rfl\n",
                   "update": "theorem gen_update_eq (p : Sha) (data : List UInt8) : Sha256Body.update p data = update p data := rfl\n",
-                  "finalize": "theorem gen_finalize_eq (p : Sha) : Sha256Body.finalize p = finalize p := rfl\n"}
+                  "finalize": "theorem gen_finalize_eq (p : Sha) : Sha256Body.finalize p = finalize p := rfl\n",
+                  "hash": "theorem gen_hash_eq (data : List UInt8) : Sha256Body.hash data = hash data := rfl\n"}
 
 
 def body_functions(raw):
@@ -1415,10 +1447,22 @@ def body_functions(raw):
         g = BodyGen("reset", parse_function(body), None)
         return g.run(f"/-- `Sha256::reset()`: `{squeeze(body)}` -/\n", "{st}.p", f"(p : {SHA}) : {SHA}")
 
+    def hsh():
+        params, body = function_text(raw, r"static\s+void\s+hash\s*\(([^{]*)\)\s*\{", "Sha256::hash")
+        mp = re.match(r"\s*const\s+byte\s*\*\s*(\w+)\s*,\s*usize\s+(\w+)\s*,\s*byte\s*\(\s*&\s*(\w+)\s*\)\s*\[\s*digestSize\s*\]\s*$", params)
+        if not mp:
+            raise Untranslatable(f"hash: parameter list `{params}`")
+        g = BodyGen("hash", parse_function(body), None, in_stream=(mp.group(1), mp.group(2)), out_ref=mp.group(3))
+        if not g.local_obj:
+            raise Untranslatable("hash: no local `Sha256` object")
+        return g.run(f"/-- `Sha256::hash({squeeze(params)})`: `{squeeze(body)}`; the local object is constructed by `Sha256()` = `init` -/\n",
+                     "{st}.out", f"({mp.group(1)} : List UInt8) : List UInt8")
+
     one("reset", rst)
     one("WriteByteBlock", wbb)
     one("update", upd)
     one("finalize", fin)
+    one("hash", hsh)
     return "".join(out), status
 
 
@@ -1430,14 +1474,14 @@ def body_proofs(ns, status):
          f"import Nstd.Generated.{ns}Body\nimport Nstd.Sha.LemmasBodyAux\n"
          "namespace Nstd.Sha\nopen Nstd.Generated Nstd.Generated.Sha256\nset_option linter.unusedSimpArgs false\n\n"
          "theorem transform_call_eq (state data : List UInt32) : Sha256.Transform_call state data = transform state data := rfl\n\n")
-    for name in ("reset", "WriteByteBlock", "update", "finalize"):
+    for name in ("reset", "WriteByteBlock", "update", "finalize", "hash"):
         if status[name] is None:
             t += (PROOFS / f"{name}.lean.in").read_text() + "\n"
         else:
             t += f"/-- `{name}` was not translated this run: {status[name].replace('-/', '- /')} -/\n" + FALLBACK_PROOF[name] + "\n"
     t += ("/-- which bodies were translated this run (`true`) and which fell back to the model function -/\n"
           "def translatedBodies : List (String × Bool) := [" +
-          ", ".join(f'("{n}", {"true" if status[n] is None else "false"})' for n in ("reset", "WriteByteBlock", "update", "finalize")) + "]\n\n")
+          ", ".join(f'("{n}", {"true" if status[n] is None else "false"})' for n in ("reset", "WriteByteBlock", "update", "finalize", "hash")) + "]\n\n")
     return t + "end Nstd.Sha\n"
 
 
